@@ -432,7 +432,7 @@ SInit(st, a, R) ==
     [] st \in {"aerroot", "aerdev", "aerbridge"} -> AerCommon_Init(a)
     [] st \in {"ghes", "ghesv2"} -> Ghes_Init(a) [] st = "notif" -> Notif_Init(a)
     [] st = "qos" -> Qos_Init(a) [] st = "ecam" -> Ecam_Init(a) [] st = "xent" -> Xent_Init(a)
-    [] st = "gas" -> [g |-> a] [] st = "gedata" -> GeData_Init(a)
+    [] st = "gas" -> [g |-> a] [] st = "gedata" -> GeData_Init(a) [] st = "gestatus" -> a
     [] st = "gas_pci" -> a [] st = "gaddr" -> a
 
 SCall(st, s, c, R) ==
@@ -463,6 +463,12 @@ SLay(st, s) ==
     [] st = "ghes" -> Ghes_Lay(s) [] st = "ghesv2" -> GhesV2_Lay(s) [] st = "notif" -> Notif_Lay(s)
     [] st = "qos" -> Qos_Lay(s) [] st = "ecam" -> Ecam_Lay(s) [] st = "xent" -> Xent_Lay(s)
     [] st = "gedata" -> GeData_Lay(s)
+    \* Generic Error Status Block (ACPI 18.3.2.7.1): block status, raw data offset / length, data length, severity.  The
+    \* constructor takes error COUNTS; which status bits a count sets is the constructor's contract, pinned here as the
+    \* crate documents it: one error -> the "valid" bit (1: correctable, 0: uncorrectable), more -> the "multiple" bit (3, 2)
+    [] st = "gestatus" -> LET bit(c, one, many) == IF c = Z(4) THEN 0 ELSE IF c = One(4) THEN one ELSE many IN
+                          <<N("status", LE(bit(s.cc, 2, 8) + bit(s.uc, 1, 4), 4)), N("raw_off", Z(4)), N("raw_len", Z(4)),
+                            N("data_len", Z(4)), N("severity", LE(SeverityCode[s.severity], 4))>>
     \* GAS for PCI configuration space (ACPI Table 5.1): address = reserved word, device, function, register offset
     \* (highest to lowest word), i.e. little-endian: register(2) function(2) device(2) 0(2)
     [] st = "gas_pci" -> <<N("space", <<2>>), N("width", s.width), N("offset", <<0>>), N("access", <<AccessCode[s.access]>>),
